@@ -225,8 +225,9 @@ def equation_of_time (jde alpha dpsi eps : Num) : Int × Num :=
 
 /-! ## Epoch.rise_set (Epoch.py:1796) -/
 
-/-- `limit = Angle(66, 33, 0)` (`dms2deg`: `sign * (de + mi / 60.0 + se / 3600.0)`). -/
-def rise_limit : Num := 1.0 * (66.0 + 33.0 / 60.0 + 0.0 / 3600.0)
+/-- `limit = Angle(66, 33, 0)` (`dms2deg`: `deg = sign * (de + mi / 60.0 + se / 3600.0)`;
+    `return Angle.reduce_deg(deg)`). -/
+def rise_limit : Num := aReduce (1.0 * (66.0 + 33.0 / 60.0 + 0.0 / 3600.0))
 
 /-- `corr = -0.83 - 2.076 * sqrt(altitude) / 60.0` (degrees); caller guarantees `altitude ≥ 0`. -/
 def rise_h0 (altitude : Num) : Num := -0.83 - 2.076 * psqrt altitude / 60.0
